@@ -86,8 +86,10 @@ CHECKS = {
              "the list value setter: the invariant (uniqueness across the namespace, parent link iff contained, lookup by key / "
              "index returns the contained child, iteration/len/membership/positions agree) holds initially, is preserved by every "
              "public call whether it returns or raises, hence after every history; failing single-element calls leave the state "
-             "exactly unchanged; tied to the SDK by differential execution over all namespace kinds with colliding, case-differing, "
-             "None and foreign-owned elements.",
+             "exactly unchanged; the generated idShorts of list items are pairwise distinct under every sequence of clock readings "
+             "(C01_generated_ids_any_clock: the counter abstraction of the model is exact); tied to the SDK by differential "
+             "execution over all namespace kinds with colliding, case-differing, None and foreign-owned elements, under running, "
+             "frozen, coarse and stepping-back clocks.",
         note="Trusted: Coq kernel + vm_compute; hand-written Namespace.v tied by correspondence only; element identity by tokens; "
              "Python harness and invariant-checker oracle.",
         technique="Coq proof (inductive invariant over operation histories, atomicity of failing calls) + correspondence + invariant oracle",
@@ -99,7 +101,9 @@ CHECKS = {
              "one persistent map; contracts for get/add/discard/update; a retrieved object stays the one handed out while it is "
              "alive; for two threads doing get/add of one id on one instance every schedule of the modelled yield points yields a "
              "single object (the two pre-repair races are refuted); an add whose write fails leaves the state exactly as it was and is "
-             "transparent for the rest of every history (C14_add_fault*). Tied to the SDK by differential execution of seeded histories "
+             "transparent for the rest of every history (C14_add_fault*); fault-free concurrent commits with pairwise distinct "
+             "temporary names: no writer fails and the writer whose os.replace runs leaves exactly its version "
+             "(C14_concurrent_commits). Tied to the SDK by differential execution of seeded histories "
              "and of all thread interleavings forced on real threads.",
         note="Partial w.r.t. OS, GC timing and the real scheduler (only interleavings at the modelled yield points). Trusted: "
              "kernel + vm_compute; hand-written model; JSON adapter and update_from exercised only through payloads (C03/C12); "
@@ -205,7 +209,9 @@ CHECKS = {
         category="proof",
         text="Closed theorems over an executable model of couchdb.py and of a server obeying CouchDB's documented document-API MVCC "
              "rules: map refinement for every history, no lost update in any state, a fresh commit visible to every reader, safe "
-             "delete, every injected fault (non-2xx, non-JSON body, drop) ends in a documented error with the server unchanged, id "
+             "delete, every injected fault (non-2xx, non-JSON body, drop) ends in a documented error with the server unchanged, a "
+             "request whose answer is lost after the server applied it ends in the transport error with the server in the state "
+             "the request produced and the client untouched (C16_lost_answer_add/commit/safe_delete), id "
              "quoting injective, revision-store key agreement across operations, routing for all legal ids (reserved '_' ids: "
              "refuted, open known finding). Tied by differential execution of the real client against a loopback fake with a "
              "second actor and fault injection.",
